@@ -18,7 +18,7 @@ RULE = ('String constants: each of the 256 byte values alone, ordered pairs (qui
         'prefix/zero-padded (1-24 zeros)/all-zero/identical siblings. Oracles: (i) the emitted assembly assembles on the strict assembler; '
         '(ii) static: the const/state sections hold exactly length word + bytes per distinct string, and exactly the '
         'packed elements per array label; (iii) dynamic: the program prints .length, write() of the constant and every '
-        'element by index, all equal to the denoted bytes. Non-trivial: constants containing a byte outside [0x20,0x7e] or '
+        'element by index (through a loop variable and through literal indices), all equal to the denoted bytes. Non-trivial: constants containing a byte outside [0x20,0x7e] or '
         'one of \\ " \'. Distinct by constant contents + form.')
 ASSUMPTIONS = ['strict assembler in svm/asm.py defines "well-formed for the Sphinx assembler" (DESIGN 2.1)']
 MIN_NONTRIVIAL = 500
@@ -279,6 +279,11 @@ def pack(el, vals, ws):
     return None
 
 
+def lit_indices(n):
+    """A few literal indices per array: both ends, the byte boundaries of bit-packed data, the middle."""
+    return sorted({0, n - 1, n // 2} | {k for k in (1, 7, 8, 9, 15, 16) if k < n})
+
+
 def check_arrays(stats, el, arrays, forms, ws, spell=0):
     """arrays: list of element lists; forms[i] in const_global|mut_global|const_local|mut_local|argument.
     spell=1: elements are written as constant expressions (elem_src_expr) instead of plain literals."""
@@ -307,6 +312,10 @@ def check_arrays(stats, el, arrays, forms, ws, spell=0):
         else:
             body += '  show(%s);\n' % lit_
         names.append((name, form))
+        # the same elements through compile-time constant indices (a separate lowering from the loop in show())
+        if form != 'argument' and vals:
+            for k_ in lit_indices(len(vals)):
+                body += '  %s write(\';\');\n' % print_elem(el, '%s[%d]' % (name, k_))
     src = glob + 'empty @is_you() {\n' + body + '}\n'
     r, err = run_prog(src, ws)
     stats.evaluated(len(arrays))
@@ -320,14 +329,20 @@ def check_arrays(stats, el, arrays, forms, ws, spell=0):
         return 'arrays of %s %r: %s' % (el, arrays[:2], err)
     if r.outcome.startswith('asm_error'):
         return 'output does not assemble (%s) for %s arrays %r' % (r.outcome, el, arrays[:2])
+    def expect_one(vals, form):
+        e_ = str(len(vals)).encode() + b':' + b''.join(expected_elem(el, v, ws) + b',' for v in vals) + b'#'
+        if form != 'argument' and vals:
+            e_ += b''.join(expected_elem(el, vals[k_], ws) + b';' for k_ in lit_indices(len(vals)))
+        return e_
+
     exp = b''
-    for vals in arrays:
-        exp += str(len(vals)).encode() + b':' + b''.join(expected_elem(el, v, ws) + b',' for v in vals) + b'#'
+    for vals, form in zip(arrays, [f_ if (v_ or f_ != 'argument') else 'const_local' for v_, f_ in zip(arrays, forms)]):
+        exp += expect_one(vals, form)
     if r.out != exp or not r.won:
         pos = 0
         bad = None
-        for vals, form in zip(arrays, forms):
-            e = str(len(vals)).encode() + b':' + b''.join(expected_elem(el, v, ws) + b',' for v in vals) + b'#'
+        for vals, form in zip(arrays, [f_ if (v_ or f_ != 'argument') else 'const_local' for v_, f_ in zip(arrays, forms)]):
+            e = expect_one(vals, form)
             if r.out[pos:pos + len(e)] != e:
                 bad = (vals, form, r.out[pos:pos + len(e) + 6])
                 break
